@@ -72,7 +72,7 @@ var loopRe = regexp.MustCompile(`^loop\s+(\d+)\s*:\s*(.*)$`)
 func isKeyword(w string) bool {
 	switch w {
 	case "func", "props", "results", "requires", "ensures", "modifies", "loop", "panics_when", "may_panic", "assert", "assume",
-		"axiom", "lemma", "trusted", "inline", "ghost", "decreases", "allocates", "induction", "note", "end", "use", "opaque", "bounded", "template", "havoc", "order_independent", "effect", "emits":
+		"axiom", "lemma", "trusted", "inline", "ghost", "decreases", "allocates", "induction", "note", "end", "use", "opaque", "bounded", "template", "havoc", "order_independent", "effect", "emits", "after", "invariant":
 		return true
 	}
 	return false
